@@ -66,7 +66,9 @@ Definition dispatch (cmd : string) (args : list string) : string :=
       | Some t =>
         JObj [("wf", JBool (Table.wf (String.eqb norm "1") t));
               ("lexemes", JArr (map (fun lx => JArr [JStr (fst lx); JStr (snd lx)]) (Table.lexemes t)));
-              ("denote", json_of_pyval (Table.denote (String.eqb norm "1") t))]
+              ("denote", json_of_pyval (Table.denote (String.eqb norm "1") t));
+              (* what run() reports for the statement: by C01_columns_exact_in_the_reported_table this is [final_table] *)
+              ("reported", json_of_res json_of_pyval (Output.format "sql" false [Table.denote (String.eqb norm "1") t]))]
       end
   | "seq_spec", norm :: rest =>
       match seq_of_args rest with
